@@ -374,14 +374,16 @@ def errorCode (s : StructDef) (v : Val) : Nat := (numOf (fieldOf s v "error")).g
 
 def variantName (e : EnumDef) (i : Nat) : String := (e.variants[i]?.map (·.1)).getD "?"
 
+/-- the caller's loop body of `get_system_info`. -/
+def sysInfoStep (e : EnumDef) : Unit → Item → Step Unit (CRes Val) := fun _ it =>
+  match it with
+  | .err => .cont ()
+  | .ok i v => if variantName e i = "Abort" then .ret (.error (.zvt (.aborted (errorCode abortStruct v)))) else .ret (.ok v)
+
 /-- `get_system_info` -/
 def getSystemInfo (cfg : Cfg) (w : World) : CRes Val × World :=
-  let e := findEnumG "feig::sequences::GetSystemInfoResponse"
-  let step : Unit → Item → Step Unit (CRes Val) := fun _ it =>
-    match it with
-    | .err => .cont ()
-    | .ok i v => if variantName e i = "Abort" then .ret (.error (.zvt (.aborted (errorCode abortStruct v)))) else .ret (.ok v)
-  match runOp cfg "feig::sequences::GetSystemInfo" sysInfoCmd TIMEOUT step w () with
+  match runOp cfg "feig::sequences::GetSystemInfo" sysInfoCmd TIMEOUT
+      (sysInfoStep (findEnumG "feig::sequences::GetSystemInfoResponse")) w () with
   | (.ret r, w) => (r, w)
   | (.cont _, w) => (.error (.zvt .incomplete), w)
 
@@ -447,20 +449,24 @@ def cancelByReceipt (cfg : Cfg) (receipt : Nat) (w : World) : CRes Unit × World
   let cmd := encodeReq "packets::PreAuthReversal" (.struct [.some (.num 0x40), .some (.num cfg.currency), .some (.num receipt)])
   simpleOp cfg "sequences::PreAuthReversal" cmd w reversalDecide
 
+def pendingCmd : Bytes :=
+  encodeReq "packets::PartialReversal" (.struct [.some (.num 0xffff), .none, .none, .none, .none])
+
+/-- the caller's loop body of `get_pending`. -/
+def pendingStep (e : EnumDef) : Unit → Item → Step Unit (CRes (List Nat)) := fun _ it =>
+  match it with
+  | .err => .cont ()
+  | .ok i v =>
+    if variantName e i = "PartialReversalAbort" then
+      match numOf (fieldOf prAbortStruct v "receipt_no") with
+      | none => .ret (.ok [])
+      | some r => if r = 0xffff then .ret (.ok []) else .ret (.ok [r])
+    else .ret (.error .unexpectedPacket)
+
 /-- `get_pending` -/
 def getPending (cfg : Cfg) (w : World) : CRes (List Nat) × World :=
-  let cmd := encodeReq "packets::PartialReversal" (.struct [.some (.num 0xffff), .none, .none, .none, .none])
-  let e := findEnumG "sequences::PartialReversalResponse"
-  let step : Unit → Item → Step Unit (CRes (List Nat)) := fun _ it =>
-    match it with
-    | .err => .cont ()
-    | .ok i v =>
-      if variantName e i = "PartialReversalAbort" then
-        match numOf (fieldOf prAbortStruct v "receipt_no") with
-        | none => .ret (.ok [])
-        | some r => if r = 0xffff then .ret (.ok []) else .ret (.ok [r])
-      else .ret (.error .unexpectedPacket)
-  match runOp cfg "sequences::PartialReversal" cmd TIMEOUT step w () with
+  match runOp cfg "sequences::PartialReversal" pendingCmd TIMEOUT
+      (pendingStep (findEnumG "sequences::PartialReversalResponse")) w () with
   | (.ret r, w) => (r, w)
   | (.cont _, w) => (.error (.zvt .incomplete), w)
 
